@@ -1,8 +1,8 @@
 (* Python list primitives with CPython's index rules, used by the reassembly loops:
-     [x] * n            -> py_repeat      (n <= 0 gives [])
-     l[i]               -> py_getitem     (negative i counts from the end; out of range -> IndexError)
-     l[i] = x           -> py_setitem     (same index rule)
-     l[lo:hi]           -> py_slice       (PySlice_AdjustIndices for step 1: negative bounds get len added and are
+     [x] * n            -> pyl_repeat      (n <= 0 gives [])
+     l[i]               -> pyl_getitem     (negative i counts from the end; out of range -> IndexError)
+     l[i] = x           -> pyl_setitem     (same index rule)
+     l[lo:hi]           -> pyl_slice       (PySlice_AdjustIndices for step 1: negative bounds get len added and are
                                            clipped at 0, bounds beyond len are clipped to len, empty when lo >= hi)
    No proofs here (Proofs/AssembleProofs.v has the lemmas); validated against CPython by tools/props/stream_common.py
    (micro-harness [pylist_micro]). *)
@@ -11,17 +11,17 @@ Require Import Prim.Exn.
 Import ListNotations.
 Open Scope Z_scope.
 
-Definition py_len {A} (l : list A) : Z := Z.of_nat (length l).
+Definition pyl_len {A} (l : list A) : Z := Z.of_nat (length l).
 
-Definition py_repeat {A} (x : A) (n : Z) : list A := repeat x (Z.to_nat n).   (* Z.to_nat of n <= 0 is 0 *)
+Definition pyl_repeat {A} (x : A) (n : Z) : list A := repeat x (Z.to_nat n).   (* Z.to_nat of n <= 0 is 0 *)
 
 (* the position a subscript [i] denotes in a sequence of length [len], None = IndexError *)
-Definition py_index (len i : Z) : option nat :=
+Definition pyl_index (len i : Z) : option nat :=
   let j := if i <? 0 then i + len else i in
   if (j <? 0) || (len <=? j) then None else Some (Z.to_nat j).
 
-Definition py_getitem {A} (l : list A) (i : Z) : M A :=
-  match py_index (py_len l) i with
+Definition pyl_getitem {A} (l : list A) (i : Z) : M A :=
+  match pyl_index (pyl_len l) i with
   | None => Raise (Py IndexError)
   | Some k => match nth_error l k with
               | Some x => Ok x
@@ -29,25 +29,25 @@ Definition py_getitem {A} (l : list A) (i : Z) : M A :=
               end
   end.
 
-Fixpoint list_set {A} (l : list A) (k : nat) (x : A) : list A :=
+Fixpoint pyl_list_set {A} (l : list A) (k : nat) (x : A) : list A :=
   match l, k with
   | [], _ => []
   | _ :: r, O => x :: r
-  | y :: r, S k' => y :: list_set r k' x
+  | y :: r, S k' => y :: pyl_list_set r k' x
   end.
 
-Definition py_setitem {A} (l : list A) (i : Z) (x : A) : M (list A) :=
-  match py_index (py_len l) i with
+Definition pyl_setitem {A} (l : list A) (i : Z) (x : A) : M (list A) :=
+  match pyl_index (pyl_len l) i with
   | None => Raise (Py IndexError)
-  | Some k => Ok (list_set l k x)
+  | Some k => Ok (pyl_list_set l k x)
   end.
 
 (* one slice bound adjusted as CPython does for step = 1 *)
-Definition py_clip (len b : Z) : Z :=
+Definition pyl_clip (len b : Z) : Z :=
   if b <? 0 then (if b + len <? 0 then 0 else b + len) else (if len <? b then len else b).
 
-Definition py_slice {A} (l : list A) (lo hi : Z) : list A :=
-  let len := py_len l in
-  let a := py_clip len lo in
-  let b := py_clip len hi in
+Definition pyl_slice {A} (l : list A) (lo hi : Z) : list A :=
+  let len := pyl_len l in
+  let a := pyl_clip len lo in
+  let b := pyl_clip len hi in
   firstn (Z.to_nat (b - a)) (skipn (Z.to_nat a) l).                           (* b <= a gives [] *)
